@@ -156,7 +156,12 @@ class Encoder:
             elif k == "Got":
                 got.add(e["r"])
                 route[e["r"]] = e.get("route", "ok")
-                tokok[e["r"]] = e.get("tok", "") == self.run.calls[e["r"]].tok
+                # the caller's OWN response: the token the server echoed for this call AND the status of
+                # the FINAL response the server sent for it (never an interim one)
+                call_ = self.run.calls[e["r"]]
+                path_ = "/" + str(call_.url).split("://", 1)[-1].partition("/")[2] if isinstance(call_.url, str) else "/"
+                want_status = 413 if path_.startswith("/early") else 200
+                tokok[e["r"]] = e.get("tok", "") == call_.tok and (e.get("status") in (None, want_status) or not isinstance(call_.url, str))
                 nsent[e["r"]] = len(e.get("sent_on", []))
             elif k == "BodyEnd":
                 bend[e["r"]] = "full" if e.get("complete") else "partial"
